@@ -46,7 +46,10 @@ def case_of(scn, it):
     A = np.vstack([it['W'][:, None] * B, it['E']])
     sv = np.linalg.svd(A, compute_uv=False)
     cond = float(sv[0] / sv[-1]) if sv[-1] > 0 else 1e16
-    tole = max(-27, min(-16, int(math.ceil(math.log2(64 * 2.2e-16 * cond * cond)))))
+    tole = max(-27, int(math.ceil(math.log2(64 * 2.2e-16 * cond * cond))))
+    if tole > -12:
+        tole = 0          # not judged: see Model/C01Check.v check_solve
+    case_of.last_tole = tole
     return '(mk_c01 %s %s %s %s %d %s %s %s %s %s %s %s %s %s)' % (
         link, dist, tau, dylit(float(scn.get('levels', 1))), m, mat(B), obs, vec(it['W']), vec(it['pd']), mat(it['E']), mat(P), vec(it['coef_in']), vec(it['coef_new']),
         common.zlit(tole))
@@ -186,6 +189,8 @@ def run(res):
         for k in pick:
             cases.append(case_of(scn, its[k]))
             meta.append(dict(d, iteration=k, of=len(its)))
+            res.count('normal-equation residual: ' + ('not judged (64 eps cond^2 > 2^-12)' if case_of.last_tole == 0 else 'tolerance 2^%d' % (-27 if case_of.last_tole <= -27 else
+                                                                                                                                          -20 if case_of.last_tole <= -20 else -12)))
         X, y = scn['X'], scn['y']
         w = np.ones(len(y)) if scn['w'] is None else np.asarray(scn['w'], dtype=np.float32).astype(float)
         # direct probes of the property statement on the implementation
@@ -236,7 +241,7 @@ def run(res):
     for i in failing:
         res.violations.append(dict(what='PIRLS iteration violates the step model: ' + CODES.get(codes.get(i), 'see check_code'), finding=None,
                                    input=meta[i], observed='check_code = %s' % codes.get(i), expected='0'))
-    res.extra['tolerances'] = {'per-observation formulas': '1e-6 relative (exact rationals; the code evaluates weights ** -1 in float32)', 'normal-equation backward error': '64 eps cond([WB;E])^2 rounded up to a power of two, clipped to [2^-27, 2^-16], of the largest row scale (exact dyadics)',
+    res.extra['tolerances'] = {'per-observation formulas': '1e-6 relative (exact rationals; the code evaluates weights ** -1 in float32)', 'normal-equation backward error': '64 eps cond([WB;E])^2 rounded up to a power of two, clipped below at 2^-27, of the largest row scale (exact dyadics); iterations with 64 eps cond^2 > 2^-12 are not judged (counted)',
                                'score residual of converged fits': '200 tol + 1e-6 (checked, not proved)', 'closed form fitted values': '1e-6 relative to max|y|'}
     res.trusted.append('LAPACK contracts (QR, SVD, Cholesky) are section hypotheses of Alg/Solve.v; the backward-error check of coef_new validates their consequence on every captured iteration')
 
